@@ -1,1 +1,14 @@
 import PyPred.Props.C01
+open PyPred
+#print axioms C01_optimize_preserves
+#print axioms C01_partial_impl
+#print axioms C01_assignments
+#print axioms C01_witness_xorNotAnd
+#print axioms C01_witness_xorOr
+#print axioms C01_witness_xorAndUnguarded
+#print axioms C01_fixed_agrees
+#print axioms optimizeT_sound
+#print axioms noImpl_trace_nil
+#print axioms beq_sound
+#print axioms negate_sound
+#print axioms implies_sound
